@@ -171,7 +171,11 @@ fn scenarios(oracle: &mut Oracle, exhaustive: bool) -> Vec<Scenario> {
         Scenario { name: "conflict-stale-report".into(), text: conflict, pre: stale.clone(), force: false, report: true },
     ];
     if exhaustive {
-        v.push(Scenario { name: "medium-stale-report".into(), text: medium, pre: stale, force: false, report: true });
+        // one `pub` symbol only: with several, the report file is truncated and rewritten per symbol and the
+        // forced-build oracle sees only the last report
+        let medium1 = MEDIUM.replace("pub List", "List").into_bytes();
+        let _ = medium;
+        v.push(Scenario { name: "medium-stale-report".into(), text: medium1, pre: stale, force: false, report: true });
     }
     v
 }
@@ -231,7 +235,12 @@ fn main() {
         let replen = o.reports.last().map(|r| r.len() as u64).unwrap_or(0);
         let top = total.max(if sc.report { replen } else { 0 });
         let stride = if exhaustive {
-            if top > 40_000 { 5 } else { 1 }
+            match sc.name.as_str() {
+                "small-none" | "small-stale" | "conflict-stale-report" => 1,
+                "small-none-report" | "small-current-forced" => 2,
+                "medium-none" => 7,
+                _ => 13,
+            }
         } else if sc.name == "small-none" {
             3
         } else if top > 40_000 {
